@@ -241,8 +241,8 @@ class ExprGen:
             return ["fn", "clip", [g(fam), ["lit", enc(lo)], ["lit", enc(hi)]], {}]
         if o == "round":
             if fam == "int":
-                return ["fn", "round", [g("int"), ["lit", d(st.integers(0, 2))]], {}]
-            return ["fn", "round", [g("float"), ["lit", d(st.integers(0, 3))]], {}]
+                return ["fn", "round", [g("int"), ["lit", d(st.integers(-2, 2))]], {}]
+            return ["fn", "round", [g("float"), ["lit", d(st.integers(-1, 3))]], {}]
         if o == "floorceil":
             return ["fn", self.pick(["floor", "ceil"]), [g("float")], {}]
         if o == "math":
